@@ -124,6 +124,7 @@ type Func struct {
 	HasErr   bool     `json:"has_err,omitempty"`
 	ErrFirst bool     `json:"err_first,omitempty"` // the error result is declared first instead of last (constructors / decorators)
 	ErrAt    int      `json:"err_at,omitempty"`    // >0: the error result is declared before top-level result ErrAt (in the middle)
+	ErrExtra int      `json:"err_extra,omitempty"` // a second error result that is always nil: 1 declared last, 2 declared first
 	Reenter  bool     `json:"reenter,omitempty"`   // constructor / decorator body calls Invoke for its own first result (re-entrant user code)
 	Variadic bool     `json:"variadic,omitempty"`
 
@@ -170,6 +171,30 @@ func (f *Func) ErrIndex() int {
 		return f.ErrAt
 	}
 	return len(f.Results)
+}
+
+// Layout lists the function's Go results in declaration order: i >= 0 is
+// top-level result i, -1 the error result that carries injected errors, -2 a
+// second error result that is always nil (dig accepts any number of them).
+func (f *Func) Layout() []int {
+	var out []int
+	ei := f.ErrIndex()
+	if f.HasErr && f.ErrExtra == 2 {
+		out = append(out, -2)
+	}
+	for i := range f.Results {
+		if i == ei {
+			out = append(out, -1)
+		}
+		out = append(out, i)
+	}
+	if ei >= 0 && ei == len(f.Results) {
+		out = append(out, -1)
+	}
+	if f.HasErr && f.ErrExtra == 1 {
+		out = append(out, -2)
+	}
+	return out
 }
 
 func (f *Func) LeafParams() []LeafParam {
@@ -256,18 +281,18 @@ func (f *Func) String() string {
 		b.WriteString(", ...")
 	}
 	b.WriteString(") -> (")
-	ei := f.ErrIndex()
-	for i, r := range f.Results {
-		if i == ei {
-			b.WriteString("error, ")
-		}
-		b.WriteString(r.String())
-		if i < len(f.Results)-1 {
+	for k, x := range f.Layout() {
+		if k > 0 {
 			b.WriteString(", ")
 		}
-	}
-	if ei >= 0 && ei == len(f.Results) {
-		b.WriteString(", error")
+		switch x {
+		case -1:
+			b.WriteString("error")
+		case -2:
+			b.WriteString("error(always nil)")
+		default:
+			b.WriteString(f.Results[x].String())
+		}
 	}
 	b.WriteString(")")
 	if f.Reenter {
